@@ -1,3 +1,45 @@
-(* C08 -- theorems are added below as they are proved (see design-notes/C08.md). *)
+(* C08 -- Restart at any event boundary is invisible.   PARTIAL.
+   Proved: what Bootstrap over the persisted databases is in the model (forget the forkless-cause cache,
+   the build counter and the election's votes; re-vote all stored roots), that it keeps every persisted
+   field when it emits no block, and that whatever it emits obeys the frame numbering.
+   NOT proved: [C08_full] below -- the re-voted election is observationally equal to the incrementally
+   built one.  That is lemma L1 of C01/C10 (votes are a function of the processed set; worker bft).
+   The full statement is evaluated on every generated case by the correspondence (restarted vs
+   never-restarted real instance vs model) and below on two concrete runs. *)
 From Coq Require Import NArith List.
-From LV Require Import model.Abft model.AbftRun spec.AbftSpec.
+From LV Require Import model.VecIndex model.Abft model.AbftRun
+  proofs.AbftSeal proofs.AbftProcess proofs.AbftRestart proofs.AbftSealWitness proofs.AbftForkWitness.
+Import ListNotations.
+Local Open Scope N_scope.
+
+Theorem C08_restart_is_revote_partial : forall cap end_block es st,
+  bootstrap cap end_block es (persist st) =
+  bootstrap_election cap end_block (roots_fuel (restarted st)) es (restarted st) [].
+Proof. exact bootstrap_is_revote. Qed.
+
+Theorem C08_restart_keeps_databases_partial : forall cap end_block es st r st',
+  bootstrap cap end_block es (persist st) = (r, [], st') ->
+  l_epoch st' = l_epoch st /\ l_vals st' = l_vals st /\ l_ldf st' = l_ldf st /\ l_roots st' = l_roots st /\
+  l_conf st' = l_conf st /\ l_idx st' = l_idx st /\ elinv st'.
+Proof. exact restart_keeps_databases. Qed.
+
+Theorem C08_bootstrap_blocks_partial : forall cap end_block es p r bl st',
+  bootstrap cap end_block es p = (r, bl, st') ->
+  frames_ok (p_ldf p) bl /\ elinv st' /\
+  if sealed_last bl then l_ldf st' = 0 /\ l_epoch st' = p_epoch p + 1
+  else l_ldf st' = p_ldf p + N.of_nat (length bl) /\ l_epoch st' = p_epoch p /\ l_vals st' = p_vals p.
+Proof. exact bootstrap_frames. Qed.
+
+(* the full statement (kept visible; not a theorem) *)
+Definition C08_full : Prop := proofs.AbftRestart.C08_full.
+
+(* the full statement's instance on two concrete runs, restart after EVERY operation (a sealing run and a
+   fork run with two blocks) *)
+Example C08_restart_everywhere :
+  keep_non_restart (combine (with_restarts s_ops) (run 200 s_pol sample (start 1 s_vals) (with_restarts s_ops))) = s_run /\
+  keep_non_restart (combine (with_restarts f_ops) (run 200 [] sample (start 2 f_vals) (with_restarts f_ops))) = f_run.
+Proof. exact restart_everywhere_witness. Qed.
+
+Print Assumptions C08_restart_is_revote_partial.
+Print Assumptions C08_restart_keeps_databases_partial.
+Print Assumptions C08_bootstrap_blocks_partial.
